@@ -169,7 +169,7 @@ func verifH_C20_validate() {
 	secret := "JBSWY3DPEHPK3PXP"
 	s := verifCase("skew")
 	n := verifInt("n")
-	verifAssume(verifAnd(n >= 16, n <= 1<<53))
+	verifAssume(verifAnd(n >= 0, n <= 1<<53)) // including counters smaller than the window (no wrap below 0)
 	var code string
 	if verifCase("src") == 1 {
 		// the code of a counter / step near the window
